@@ -162,8 +162,101 @@ def run(prog, rep, tier, cfg):
         rep.need('K5', 'extension:queue-updated', len(adds) == 1 and result_fate(g, adds[0]) == 'try', 'the deadline expiration queue is told about the recorded partitions', X.loc(g))
     rep.floor('K7', 'extension_partition_store_sites', n_ext, 1)
 
+    # ---- deadline memos updated from handler code (outside impl Deadline): the amount added to a deadline's memo must be that
+    # deadline's own total - a running total that is (re)started inside the loop over deadlines, or a value computed inside it -
+    # not the message-wide total that keeps growing across deadlines
+    from rules import loop_blocks, _is_zero_def
+    n_memo = 0
+    for f in prog.bodies():
+        if f.crate != CR or f.kind not in ('fn', 'assocfn', 'closure') or '::deadline_state::' in f.id or '::deadlines::' in f.id or NEUTRAL.search(f.id):
+            continue
+        lb = None
+        for c in f.calls:
+            if not (c.defp or '').endswith(('AddAssign::add_assign', 'SubAssign::sub_assign')) or len(c.args) != 2:
+                continue
+            t = X.mut_target(c, 0)
+            if not t or not t[-1][0].endswith('Deadline') or t[-1][1] not in ('live_power', 'faulty_power', 'daily_fee', 'live_sectors', 'total_sectors'):
+                continue
+            n_memo += 1
+            if lb is None:
+                lb = loop_blocks(f)
+            if c.bb not in lb:
+                continue
+            src = _base_amount_local(f, c.args[1])
+            ok = True
+            why = ''
+            up = _upvar_of(f, c.args[1])
+            if up is not None:
+                # a variable captured from outside the closure: its value spans the whole loop unless the loop body restarts it
+                restarts = [d for d in f.defs.get(1, []) if d[0] == '=' and d[1] in lb and any(isinstance(q, list) and q[0] == 'f' and q[1] == up and str(q[2]).startswith('closure:') for q in d[3][1]) and _is_zero_def(prog, f, ('=', d[1], d[2], [0, []], d[4]))]
+                ok = bool(restarts)
+                why = 'the captured total added to Deadline.%s is started outside the loop over deadlines (it also carries the earlier deadlines\' amounts)' % t[-1][1]
+            elif src is not None:
+                zs = [d for d in f.defs.get(src, []) if d[0] in ('=', 'call') and _is_zero_def(prog, f, d)]
+                others = [d for d in f.defs.get(src, []) if d[0] in ('=', 'call') and d not in zs]
+                if zs and not others:
+                    inside = [z for z in zs if z[1] in lb and c.bb in f.reach([z[1]], use_flags=False) and z[1] in f.reach([t2 for (t2, _l) in f.succ[c.bb]], use_flags=False)]
+                    ok = bool(inside)
+                    why = 'the total `%s` added to Deadline.%s is started outside the loop over deadlines (it also carries the earlier deadlines\' amounts)' % (f.name_of(src), t[-1][1])
+            rep.need('K10', 'deadline-memo-from-own-total:%s:%s' % (f.id.split('::', 1)[-1], t[-1][1]), ok, why or 'the amount added to the deadline memo is the deadline\'s own', c.where)
+    rep.floor('K10', 'deadline_memo_updates_in_handlers', n_memo, 4)
+
     # ---- running totals (amounts, power, datacap) accumulated in loops keep their earlier contributions
     X.accumulator_integrity('K12', 'running-totals', ['fil_actor_miner'], 'running totals of amounts')
     X.no_dropped_results('K14', 'results-not-discarded', ['fil_actor_miner'], 'no Result of a call is discarded')
     X.tolerated_failures('K15', 'tolerated-failures', ['fil_actor_miner'], 'tolerated failures are the reviewed ones')
 
+
+def _upvar_of(f, op, depth=0):
+    """index of the closure upvar an `&x` operand refers to, or None"""
+    if depth > 6 or f.kind != 'closure' or op[0] not in ('c', 'm'):
+        return None
+    pl = op[1]
+    if pl[0] == 1 and pl[1]:
+        fs = [q for q in pl[1] if isinstance(q, list) and q[0] == 'f' and str(q[2]).startswith('closure:')]
+        if fs:
+            return fs[0][1]
+    if any(q != '*' for q in pl[1]):
+        return None
+    ds = [d for d in f.defs.get(pl[0], []) if d[0] in ('=', 'call')]
+    if len(ds) != 1:
+        return None
+    d = ds[0]
+    if d[0] == '=':
+        rv = d[4]
+        if rv[0] in ('ref', 'rawptr'):
+            return _upvar_of(f, ['c', rv[2]], depth + 1)
+        if rv[0] in ('use',) and rv[1][0] in ('c', 'm'):
+            return _upvar_of(f, rv[1], depth + 1)
+        if rv[0] == 'cfd':
+            return _upvar_of(f, ['c', rv[1]], depth + 1)
+        return None
+    c = d[2]
+    if (c.defp or '').endswith(('Clone::clone', 'Deref::deref', 'Borrow::borrow')) and c.args:
+        return _upvar_of(f, c.args[0], depth + 1)
+    return None
+
+
+def _base_amount_local(f, op, depth=0):
+    """the user local an `&x` / `x.clone()` operand refers to"""
+    if depth > 6 or op[0] not in ('c', 'm') or op[1][1]:
+        return None
+    l = op[1][0]
+    named = {n[1][0] for n in f.names if not n[1][1]}
+    if l in named:
+        return l
+    ds = [d for d in f.defs.get(l, []) if d[0] in ('=', 'call')]
+    if len(ds) != 1:
+        return None
+    d = ds[0]
+    if d[0] == '=':
+        rv = d[4]
+        if rv[0] in ('ref', 'rawptr') and not rv[2][1]:
+            return _base_amount_local(f, ['c', [rv[2][0], []]], depth + 1)
+        if rv[0] == 'use' and rv[1][0] in ('c', 'm') and not rv[1][1][1]:
+            return _base_amount_local(f, ['c', [rv[1][1][0], []]], depth + 1)
+        return None
+    c = d[2]
+    if (c.defp or '').endswith(('Clone::clone', 'Deref::deref', 'Borrow::borrow')) and c.args:
+        return _base_amount_local(f, c.args[0], depth + 1)
+    return None
